@@ -286,6 +286,12 @@ class _H(object):
         xid = 0x7777
       elif msg[1] == "right":
         xid = bx
+      elif msg[1] == "old":
+        # the reply to an EARLIER barrier request of this handshake (after a second features reply the
+        # controller has sent a second one): what a switch that answers every barrier in order sends first
+        old = [rx for (rt, rx, rb) in c.requests if rt == sb.OFPT_BARRIER_REQUEST and rx != bx]
+        xid = old[0] if old else (bx + 1) & 0xffffffff
+        self.out.label("barrier-reply:" + ("superseded-barrier" if old else "foreign-xid"))
       else:
         xid = (bx + 1 + (msg[2] if len(msg) > 2 else 0)) & 0xffffffff
       if bx is not None:
@@ -296,7 +302,9 @@ class _H(object):
       if bx is not None:
         c.barrier_answered = True
       return (sb.error(xid, sb.OFPET_BAD_REQUEST, sb.OFPBRC_BAD_TYPE, sb.barrier_request(xid)),
-              lambda: m.error(c.m, bx is not None, sb.OFPET_BAD_REQUEST, sb.OFPBRC_BAD_TYPE))
+              # (judged when it is read: a features reply read before it in the same segment has made the controller
+              #  send a new barrier request, and this error then answers a superseded one)
+              lambda: m.error(c.m, bx is not None and bx == c.m.barrier_xid, sb.OFPET_BAD_REQUEST, sb.OFPBRC_BAD_TYPE))
     if t == "rerr":
       # an error answering the k-th message the controller has sent during the handshake so far, echoing
       # THAT message's xid and carrying a copy of it, with one of several type/code pairs
@@ -325,7 +333,7 @@ class _H(object):
       def act1():
         if not is_barrier:
           m.other(c.m)
-        return m.error(c.m, is_barrier, et, code)
+        return m.error(c.m, is_barrier and rx == c.m.barrier_xid, et, code)
       return sb.error(rx, et, code, rb[:64]), act1
     if t == "ps":
       self.ps_seq += 1
@@ -988,6 +996,32 @@ def enum_handshake(max_async):
             yield {"k": "hist", "ops": ops}
 
 
+def enum_barrier_answers(tier):
+  """one or two features replies, then every sequence of 1..3 answers to the barrier(s) -- the right reply,
+  a reply with a foreign xid, the reply to the superseded first barrier, the barrier-unsupported error, an
+  error quoting the k-th request -- under every way of packing them into reads (each answer alone or in the
+  same segment as the next).  Connection-up is due at most once, and never after the controller has dropped
+  the connection because of an earlier answer in the same segment."""
+  answers = [["bar", "right"], ["bar", "wrong"], ["bar", "old"], ["berr"], ["rerr", 4, 0], ["rerr", 7, 0]]
+  tail = [["m", 0, ["ps", 0, 1], 0], ["send", 0], ["lose", 0, "eof"], ["send", 0]]
+  for nfeat in (1, 2):
+    head = [["open", 0], ["m", 0, ["hello"], 0]] + [["m", 0, ["feat"], 0]] * nfeat
+    for n in (1, 2, 3):
+      for seq in itertools.product(answers, repeat=n):
+        for joins in itertools.product((0, 1), repeat=n - 1):
+          ops = list(head)
+          for i, a in enumerate(seq):
+            ops.append(["m", 0, a, joins[i] if i < n - 1 else 0])
+          yield {"k": "hist", "ops": ops + tail}
+          if tier != "quick" or n < 3:
+            # the same with a second connection of the same datapath already announced
+            pre = [["open", 0], ["m", 0, ["hello"], 0], ["m", 0, ["feat"], 0], ["m", 0, ["bar", "right"], 0]]
+            ops2 = pre + [[o[0], 1] + o[2:] if o[0] in ("m",) else (["open", 0] if o[0] == "open" else o) for o in head]
+            for i, a in enumerate(seq):
+              ops2.append(["m", 1, a, joins[i] if i < n - 1 else 0])
+            yield {"k": "hist", "ops": ops2 + [["send", 0], ["lose", 1, "eof"], ["send", 0], ["lose", 0, "eof"], ["send", 0]]}
+
+
 def enum_request_errors(tier):
   """the switch answers each message the controller sends during the handshake (features request, stats
   request, set_config, flow_mod, barrier request) with an error echoing that message's xid, at every point
@@ -1249,7 +1283,7 @@ _msg_async = st.one_of(
   st.tuples(st.just("rerr"), st.integers(0, 4), st.integers(0, 4)).map(list),
   st.tuples(st.just("rerr"), st.integers(0, 4), st.just(0)).map(list),
 )
-_msg_barrier = st.one_of(st.just(["bar", "right"]), st.just(["bar", "right"]), st.just(["berr"]),
+_msg_barrier = st.one_of(st.just(["bar", "right"]), st.just(["bar", "right"]), st.just(["berr"]), st.just(["bar", "old"]),
                          st.tuples(st.just("bar"), st.just("wrong"), st.integers(0, 3)).map(list))
 
 
@@ -1257,6 +1291,10 @@ _msg_barrier = st.one_of(st.just(["bar", "right"]), st.just(["bar", "right"]), s
 def _script(draw, i, tier):
   """ops of connection i (without the index-free global ops)"""
   hs = [["hello"], ["feat"], ["desc"], draw(_msg_barrier)]
+  if draw(st.integers(0, 7)) == 0:
+    hs.insert(2, ["feat"])                 # a second features reply inside the handshake (a second barrier follows)
+  for _ in range(draw(st.sampled_from([0, 0, 0, 0, 1, 1, 2]))):
+    hs.append(draw(_msg_barrier))          # the switch answers (what it takes for) the barrier more than once
   if draw(st.integers(0, 9)) >= 6:
     hs = list(draw(st.permutations(hs)))
   n_async = draw(st.integers(0, 3))
@@ -1340,11 +1378,22 @@ def _loop_history(draw, tier):
   base = draw(_history(tier))["ops"]      # (its "app", if any, is not carried over; one is drawn below)
   ops = []
   spec = lambda: [draw(st.sampled_from([1, 1, 1, 1, 1, 0, 0, 2, 3])) for _ in range(MAX_CONNS)]
+  nfeat = {}
   for op in base:
     o = op[0]
     if o == "m":
       ops.append(["m", op[1], op[2]])
-      if not (len(op) > 3 and op[3]):
+      dup_feat = False
+      if op[2] == ["feat"]:
+        nfeat[op[1]] = nfeat.get(op[1], 0) + 1
+        dup_feat = nfeat[op[1]] > 1
+      if dup_feat:
+        # a repeated features reply makes the controller send a new barrier request: the scripted switch must have
+        # been able to see it before it builds its next answer, so the reply is read in a round of its own
+        r = [0] * MAX_CONNS
+        r[op[1]] = 1
+        ops.append(["round", r])
+      elif not (len(op) > 3 and op[3]):
         r = [0] * MAX_CONNS
         r[op[1]] = 1
         ops.append(["round", r if draw(st.integers(0, 4)) else spec()])
@@ -1370,6 +1419,7 @@ def plan(tier):
       Enum("three-connections", lambda: enum_three(tier), shards=4),
       Enum("loss-inside-the-handshake", lambda: enum_cut(tier), shards=2),
       Enum("errors-answering-handshake-requests", lambda: enum_request_errors(tier), shards=4),
+      Enum("barrier-answer-sequences", lambda: enum_barrier_answers(tier), shards=4),
       Enum("core-DownEvent", lambda: enum_down(tier), shards=4),
       Enum("real-task-loop", lambda: enum_loop(tier), shards=2),
       Enum("applications-acting-inside-handlers", lambda: enum_app(tier), shards=4),
@@ -1383,6 +1433,7 @@ def plan(tier):
     Enum("three-connections", lambda: enum_three(tier), shards=16),
     Enum("loss-inside-the-handshake", lambda: enum_cut(tier), shards=16),
     Enum("errors-answering-handshake-requests", lambda: enum_request_errors(tier), shards=8),
+    Enum("barrier-answer-sequences", lambda: enum_barrier_answers(tier), shards=8),
     Enum("core-DownEvent", lambda: enum_down(tier), shards=8),
     Enum("real-task-loop", lambda: enum_loop(tier), shards=8),
     Enum("applications-acting-inside-handlers", lambda: enum_app(tier), shards=8),
